@@ -69,6 +69,9 @@ def cases(tier):
             if sum(1 for k in kinds if k == 'float') < 2:
                 continue
             yield ('W', kinds, 1, 0)
+    for kinds in (('f32',), ('f16',), ('dateD',), ('dateM',), ('f32', 'dateD'), ('f32', 'f32'), ('dateM', 'dateD')):
+        for nrows in (1, 2, 3):
+            yield ('N', kinds, nrows, 0)
     if tier == 'quick':
         # six columns are the least that show a run-length carried over the wrong end of a 2-D block (limit 2, block [nan, v, nan, nan, w] after a 1-D block)
         yield ('W', ('float',) * 6, 1, 0)
@@ -258,6 +261,15 @@ def run_frame(case, ctx):
         fv = lambda r, c: 300 + 10 * int(r[1:]) + int(c[1:])
         fr_, fc_ = sorted(index, key=lambda l: (int(l[1:]) * 7) % 5) + ['zz'], ['yy'] + sorted(columns, key=lambda l: (int(l[1:]) * 3) % 4)
         filler2 = sf.Frame.from_records([[fv(r, c) if r != 'zz' and c != 'yy' else 999 for c in fc_] for r in fr_], index=fr_, columns=fc_)
+        # a filler with EXACTLY the target's labels (same shape), in another order on one or both axes
+        for oname, ri, ci in (('rows-reversed', index2[::-1][::-1][::-1], columns2), ('columns-rotated', index2, columns2[1:] + columns2[:1]), ('both', index2[::-1], columns2[::-1])):
+            if (oname == 'rows-reversed' and nrows < 2) or (oname == 'columns-rotated' and ncols < 2) or (oname == 'both' and (nrows < 2 and ncols < 2)):
+                continue
+            ri_ = index2[::-1] if oname in ('rows-reversed', 'both') else index2
+            ci_ = (columns2[1:] + columns2[:1]) if oname in ('columns-rotated', 'both') else columns2
+            filler3 = sf.Frame.from_records([[fv(r, c) for c in ci_] for r in ri_], index=ri_, columns=ci_)
+            op(f'fillna_frame_same-labels-{oname}', lambda filler3=filler3: f2.fillna(filler3),
+               [[fv(index2[i], columns2[j]) if miss[j][i] else grid[j][i] for i in range(nrows)] for j in range(ncols)], index2, columns2)
         op('fillna_frame_descending_labels', lambda: f2.fillna(filler2),
            [[fv(index2[i], columns2[j]) if miss[j][i] else grid[j][i] for i in range(nrows)] for j in range(ncols)], index2, columns2)
         for axis in (0, 1):
@@ -288,6 +300,71 @@ def check_series(ctx, tag, res, exp_vals, exp_index, info):
     got = list(res.values)
     if len(got) != len(exp_vals) or not all(same(g, e) for g, e in zip(got, exp_vals)):
         ctx.violation(f'{tag}|cells', **info, got=[norm(x) for x in got], expected=[norm(x) for x in exp_vals])
+
+
+NARROW = {
+    # kind: (dtype, base value(i, j), missing, fill value that needs a wider / finer dtype of the same kind)
+    'f32': ('float32', lambda i, j: 1.5 + i + 10 * j, np.nan, 0.1),
+    'f16': ('float16', lambda i, j: 0.5 + i + 4 * j, np.nan, 0.1),
+    'dateD': ('datetime64[D]', lambda i, j: np.datetime64('2020-01-01') + np.timedelta64(i + 3 * j, 'D'), np.datetime64('NaT'), np.datetime64('2019-03-04T05:06:07')),
+    'dateM': ('datetime64[M]', lambda i, j: np.datetime64('2020-01') + np.timedelta64(i + 3 * j, 'M'), np.datetime64('NaT'), np.datetime64('2019-03-04')),
+}
+
+
+def run_narrow(case, ctx):
+    '''columns of a narrow / coarse dtype filled with a value that needs a wider / finer dtype of the same kind: every filled cell holds exactly the value supplied'''
+    _, kinds, nrows, _ = case
+    ncols = len(kinds)
+    index = ['r%d' % i for i in range(nrows)]
+    columns = ['c%d' % j for j in range(ncols)]
+    same_kind = len({NARROW[k][0][:4] for k in kinds}) == 1
+    for bits in itertools.product((0, 1), repeat=ncols * nrows):
+        grid, arrays = [], []
+        for j, k in enumerate(kinds):
+            dt, base, missing, _ = NARROW[k]
+            colv = [missing if bits[j * nrows + i] else base(i, j) for i in range(nrows)]
+            a = np.array(colv, dtype=dt)
+            a.flags.writeable = False
+            grid.append([a[i] for i in range(nrows)])
+            arrays.append(a)
+        miss = [[bool(b) for b in bits[j * nrows:(j + 1) * nrows]] for j in range(ncols)]
+        for sig, blocks in U.layouts(arrays):
+            f = U.frame_from_blocks(blocks, nrows, index=index, columns=columns)
+            ctx.state(('N', kinds, nrows, sig, bits))
+            info = dict(kinds=kinds, nrows=nrows, layout=sig, mask=bits)
+            fills = [NARROW[kinds[0]][3]] if same_kind else [NARROW[k][3] for k in kinds[:1]]
+            for fill in fills:
+                def exp_for(fn):
+                    return by_axis(grid, nrows, 0, fn)
+                ops = [('fillna', lambda: f.fillna(fill), [[fill if m else v for v, m in zip(c, mc)] for c, mc in zip(grid, miss)]),
+                       ('leading0', lambda: f.fillna_leading(fill, axis=0), by_axis(grid, nrows, 0, lambda s_: r_leading(s_, fill))),
+                       ('trailing0', lambda: f.fillna_trailing(fill, axis=0), by_axis(grid, nrows, 0, lambda s_: r_trailing(s_, fill)))]
+                if same_kind:
+                    ops += [('leading1', lambda: f.fillna_leading(fill, axis=1), by_axis(grid, nrows, 1, lambda s_: r_leading(s_, fill))),
+                            ('trailing1', lambda: f.fillna_trailing(fill, axis=1), by_axis(grid, nrows, 1, lambda s_: r_trailing(s_, fill)))]
+                for name, fn, exp in ops:
+                    ctx.transition()
+                    if 0 < sum(bits) < len(bits):
+                        ctx.nontriv(('N', kinds, nrows, bits, name))
+                    try:
+                        res = fn()
+                    except Exception as e:
+                        ctx.violation(f'narrow.{name}|raises|{type(e).__name__}', **info, error=repr(e))
+                        continue
+                    # cells of a kind the fill value does not belong to (a date fill in a float column) are outside the comparison of exactness
+                    check_frame(ctx, f'narrow.{name}|fill-kind={type(fill).__name__}', res, exp, index, columns, info)
+            if ncols == 1:
+                s1 = sf.Series(arrays[0], index=index)
+                fill = NARROW[kinds[0]][3]
+                for name, fn, exp in (('series.fillna', lambda: s1.fillna(fill), [fill if m else v for v, m in zip(grid[0], miss[0])]),
+                                      ('series.leading', lambda: s1.fillna_leading(fill), r_leading(grid[0], fill)), ('series.trailing', lambda: s1.fillna_trailing(fill), r_trailing(grid[0], fill))):
+                    ctx.transition()
+                    try:
+                        check_series(ctx, f'narrow.{name}', fn(), exp, index, info)
+                    except Exception as e:
+                        ctx.violation(f'narrow.{name}|raises|{type(e).__name__}', **info, error=repr(e))
+    ctx.outcome('N')
+    ctx.sample({'family': 'narrow', 'kinds': kinds, 'nrows': nrows}, limit=1)
 
 
 def run_series(case, ctx):
@@ -392,5 +469,7 @@ def run_case(case, ctx):
         run_frame(case, ctx)
     elif case[0] == 'W':
         run_wide(case, ctx)
+    elif case[0] == 'N':
+        run_narrow(case, ctx)
     else:
         run_series(case, ctx)
